@@ -325,3 +325,32 @@ def builder_parse_bodies(prog):
     moved out of it (e.g. `split_component`), so that rules written against the unsplit function keep seeing one body"""
     b = logic_or_inlined(prog, "mpd_protocol::response::ResponseBuilder::parse", {"mpd_protocol::parser::ParsedComponent::parse"})
     return [b] if b is not None else []
+
+
+def with_private_callees(prog, body, depth=3):
+    """family of `body` plus the families of the private (non-pub, non-exported) workspace functions of the same crate it calls,
+    transitively: the bodies a function was split into"""
+    out = []
+    seen = set()
+    work = [(body, depth)]
+    while work:
+        b, d = work.pop()
+        root = prog.bodies.get(b.root, b)
+        if root.id in seen:
+            continue
+        seen.add(root.id)
+        fam = family(prog, root)
+        out.extend(fam)
+        if d <= 0:
+            continue
+        for fb in fam:
+            for bb, t in fb.calls():
+                f = callee(t)
+                tgt = prog.bodies.get((f or {}).get("inst") or (f or {}).get("def")) if f else None
+                if tgt is None or tgt.crate != body.crate or tgt.raw.get("derived"):
+                    continue
+                troot = prog.bodies.get(tgt.root, tgt)
+                if troot.raw.get("pub") or troot.raw.get("exported"):
+                    continue
+                work.append((troot, d - 1))
+    return out
